@@ -121,6 +121,8 @@ Proof.
   - destruct (q_insert cfg q _ v) eqn:E; cbn [fst]; [eapply q_insert_inv; eassumption|exact HQ].
   - exact HQ.
   - cbn [fst]. apply q_remove_inv. exact HQ.
+  - destruct (q_insert cfg q k v) eqn:E; cbn [fst]; [eapply q_insert_inv; eassumption|exact HQ].
+  - cbn [fst]. apply q_remove_inv. exact HQ.
 Qed.
 Theorem qxrun_inv ops : forall q, QInv cfg q -> QInv cfg (fst (qxrun cfg q ops)).
 Proof.
@@ -244,7 +246,8 @@ Proof. intros Hv. unfold q_insert, check_key. rewrite Hv. cbn [bind]. destruct (
 (* Qualifiers / Entry / typed accessors: a panic is possible only for Index / IndexMut of an absent (or invalid) key *)
 Theorem qxstep_panics_only_when_documented q o : QInv cfg q -> snd (qxstep cfg q o) = XoPanic ->
   (exists k, (o = QIdx k \/ exists v, o = QIdxSet k v) /\ q_get cfg q k = None)
-  \/ (exists i v, o = QTKIns i v /\ (length (typed_keys cfg) <= i)%nat).     (* an index that names no declared typed qualifier: not expressible through the API *)
+  \/ (exists i v, o = QTKIns i v /\ (length (typed_keys cfg) <= i)%nat)      (* an index that names no declared typed qualifier: not expressible through the API *)
+  \/ (exists k v, o = QTUIns k v /\ valid_key cfg k = false).                 (* documented: insert_typed with a user-declared KEY that is not a valid key *)
 Proof.
   intros HQ. destruct o; cbn [qxstep].
   - destruct (q_insert cfg q k v); discriminate.
@@ -285,8 +288,12 @@ Proof.
     destruct (Nat.ltb_spec i (length (typed_keys cfg))) as [Hlt|Hge].
     + assert (Hv : valid_key cfg (nth i (typed_keys cfg) []) = true) by (rewrite forallb_forall in Htk; apply Htk; apply nth_In; exact Hlt).
       destruct (insert_valid_ok q _ v Hv) as [q' ->]. discriminate.
-    + intros _. right. exists i, v. split; [reflexivity|exact Hge].
+    + intros _. right. left. exists i, v. split; [reflexivity|exact Hge].
   - discriminate.
+  - discriminate.
+  - destruct (valid_key cfg k) eqn:Hv.
+    + destruct (insert_valid_ok q k v Hv) as [q' ->]. discriminate.
+    + intros _. right. right. exists k, v. split; [reflexivity|exact Hv].
   - discriminate.
 Qed.
 (* GenericPurlBuilder: no call panics *)
